@@ -41,6 +41,90 @@ const (
 	NTArgs       = 12
 )
 
+// Optional forms of a stored value.
+const (
+	FPlain    = 0 // v            : T
+	FSome     = 1 // v            : T?
+	FSomeSome = 2 // v            : T??
+	FNil      = 3 // nil          : T?   (dynamic type Never?)
+	NForms    = 4
+)
+
+// MaxTArgDepth: type arguments are used at optional depths 0..MaxTArgDepth (T, T?, T??).
+const MaxTArgDepth = 2
+
+// DynType is the dynamic (static-at-run-time) type of a stored value: kind wrapped in Depth optionals, or Never?.
+type DynType struct {
+	Never bool
+	K     int
+	Depth int
+}
+
+// DynOf returns the dynamic type of a stored value of kind k in optional form f.
+func DynOf(k, f int) DynType {
+	if f == FNil {
+		return DynType{Never: true, Depth: 1}
+	}
+	return DynType{K: k, Depth: f}
+}
+
+func (d DynType) isResource() bool { return !d.Never && kindIsResource(d.K) }
+
+// Ident is the type identifier type(at:) / forEachStored report.
+func (d DynType) Ident() string {
+	s := "Never"
+	if !d.Never {
+		s = kindIdent[d.K]
+	}
+	for i := 0; i < d.Depth; i++ {
+		s = "(" + s + ")?"
+	}
+	return s
+}
+
+// String is a short printable form, e.g. "R??", "Never?".
+func (d DynType) String() string {
+	s := "Never"
+	if !d.Never {
+		s = KindName[d.K]
+	}
+	return s + strings.Repeat("?", d.Depth)
+}
+
+// SubDyn is the harness-side subtype relation between a stored dynamic type and the type
+// argument t at optional depth td:
+//
+//	T  <: U?  iff T <: U        T? <: U?  iff T <: U        Never <: anything
+//	X  <: AnyStruct   iff X is not resource-kinded (optionals of structs and Never? included)
+//	X  <: AnyResource iff X is resource-kinded (optionals of resources included) or X is Never?…
+//	T? is not a subtype of any other non-optional type
+func SubDyn(d DynType, t, td int) bool {
+	for td > 0 {
+		if d.Depth > 0 {
+			d.Depth--
+		}
+		td--
+	}
+	if d.Never && d.Depth == 0 {
+		return true
+	}
+	switch t {
+	case TAnyStruct:
+		return !d.isResource()
+	case TAnyResource:
+		return d.isResource() || d.Never
+	}
+	if d.Depth > 0 || d.Never {
+		return false
+	}
+	return SubKind(d.K, t)
+}
+
+// TArgString is the printable form of type argument t at depth td.
+func TArgString(t, td int) string { return TArgName[t] + strings.Repeat("?", td) }
+
+func tArgCadD(t, td int) string { return tArgCad[t] + strings.Repeat("?", td) }
+
 // MapContract is deployed as "C" to account 0x1 before the history runs.
 const MapContract = `access(all) contract C {
   access(all) struct interface I { access(all) fun tag(): String }
@@ -85,6 +169,16 @@ const MapContract = `access(all) contract C {
     if let s = v as? S { return s.tag() }
     if let s = v as? S2 { return "S2:".concat(s.y) }
     return "?"
+  }
+  // optional-tolerant: dynamic casts unbox optionals, so the innermost payload is shown; "nil" when there is none
+  access(all) fun showAny(_ v: AnyStruct?): String {
+    if let i = v as? Int { return "Int:".concat(i.toString()) }
+    if let s = v as? String { return C.showStr(s) }
+    if let a = v as? [Int] { return C.showArr(a) }
+    if let s = v as? S { return s.tag() }
+    if let s = v as? S2 { return "S2:".concat(s.y) }
+    if let a = v as? [AnyStruct] { return "arr:".concat(a.length.toString()) }
+    return "nil"
   }
   // for ephemeral references (dynamic casts of ephemeral references are type-checked)
   access(all) fun showR(_ v: &AnyResource): String {
@@ -220,8 +314,12 @@ type MapOp struct {
 	P    int    `json:"p"`
 	K    int    `json:"k,omitempty"`    // save: value kind
 	N    int    `json:"n,omitempty"`    // save: payload
+	F    int    `json:"f,omitempty"`    // save: optional form (FPlain, FSome, FSomeSome, FNil)
 	T    int    `json:"t,omitempty"`    // type argument
+	TD   int    `json:"td,omitempty"`   // optional depth of the type argument (T, T?, T??)
 	Stop int    `json:"stop,omitempty"` // each: stop after this many callbacks (0 = never)
+	// Generic: a resource load only reports some/nil (always the case for optional type arguments)
+	Generic bool `json:"generic,omitempty"`
 	A2   int    `json:"a2,omitempty"`   // move: destination
 	P2   int    `json:"p2,omitempty"`
 }
@@ -229,9 +327,9 @@ type MapOp struct {
 func (o MapOp) String() string {
 	switch o.Op {
 	case "save":
-		return fmt.Sprintf("save a%d/p%d %s(%d)", o.A, o.P, KindName[o.K], o.N)
+		return fmt.Sprintf("save a%d/p%d %s(%d)%s", o.A, o.P, KindName[o.K], o.N, []string{"", " as T?", " as T??", " nil as T?"}[o.F])
 	case "load", "copy", "borrow", "check":
-		return fmt.Sprintf("%s<%s> a%d/p%d", o.Op, TArgName[o.T], o.A, o.P)
+		return fmt.Sprintf("%s<%s> a%d/p%d", o.Op, TArgString(o.T, o.TD), o.A, o.P)
 	case "move":
 		return fmt.Sprintf("move<%s> a%d/p%d -> a%d/p%d", TArgName[o.T], o.A, o.P, o.A2, o.P2)
 	case "each":
@@ -284,24 +382,44 @@ func renderOp(i int, o MapOp) (lines []string) {
 	w := func(f string, args ...any) { lines = append(lines, fmt.Sprintf(f, args...)) }
 	switch o.Op {
 	case "save":
-		w(`%s.storage.save(%s, to: %s)`, a, valExpr(o.K, o.N), p)
+		expr := valExpr(o.K, o.N)
+		if o.F != FPlain {
+			ty, bind := tArgCad[o.K]+strings.Repeat("?", max(1, min(o.F, 2))), "="
+			if kindIsResource(o.K) {
+				bind = "<-"
+			}
+			init := strings.TrimPrefix(expr, "<- ")
+			if o.F == FNil {
+				ty, init = tArgCad[o.K]+"?", "nil"
+			}
+			w(`let sv%d: %s %s %s`, i, ty, bind, init)
+			expr = fmt.Sprintf("sv%d", i)
+			if kindIsResource(o.K) {
+				expr = "<- " + expr
+			}
+		}
+		w(`%s.storage.save(%s, to: %s)`, a, expr, p)
 		w(`log("%d:save")`, i)
 	case "load":
-		if TArgIsResource(o.T) {
+		switch {
+		case TArgIsResource(o.T) && o.TD == 0 && !o.Generic:
 			w(`if let v%d <- %s.storage.load<%s>(from: %s) { log("%d:load:".concat(C.showR(&v%d as &AnyResource))); destroy v%d } else { log("%d:load:nil") }`,
 				i, a, tArgCad[o.T], p, i, i, i, i)
-		} else {
-			w(`if let v%d = %s.storage.load<%s>(from: %s) { log("%d:load:".concat(%s)) } else { log("%d:load:nil") }`,
-				i, a, tArgCad[o.T], p, i, valueShow(o.T, fmt.Sprintf("v%d", i)), i)
+		case TArgIsResource(o.T):
+			w(`let v%d <- %s.storage.load<%s>(from: %s)`, i, a, tArgCadD(o.T, o.TD), p)
+			w(`if let u%d <- v%d { log("%d:load:some"); destroy u%d } else { log("%d:load:nil") }`, i, i, i, i, i)
+		default:
+			w(`let v%d = %s.storage.load<%s>(from: %s)`, i, a, tArgCadD(o.T, o.TD), p)
+			w(`log("%d:load:".concat(C.showAny(v%d)))`, i, i)
 		}
 	case "copy":
-		w(`if let v%d = %s.storage.copy<%s>(from: %s) { log("%d:copy:".concat(%s)) } else { log("%d:copy:nil") }`,
-			i, a, tArgCad[o.T], p, i, valueShow(o.T, fmt.Sprintf("v%d", i)), i)
+		w(`let v%d = %s.storage.copy<%s>(from: %s)`, i, a, tArgCadD(o.T, o.TD), p)
+		w(`log("%d:copy:".concat(C.showAny(v%d)))`, i, i)
 	case "borrow":
 		w(`if let r%d = %s.storage.borrow<%s>(from: %s) { log("%d:borrow:".concat(%s)) } else { log("%d:borrow:nil") }`,
 			i, a, tArgRef(o.T), p, i, borrowRead(o.T, fmt.Sprintf("r%d", i)), i)
 	case "check":
-		w(`log("%d:check:".concat(%s.storage.check<%s>(from: %s) ? "true" : "false"))`, i, a, tArgCad[o.T], p)
+		w(`log("%d:check:".concat(%s.storage.check<%s>(from: %s) ? "true" : "false"))`, i, a, tArgCadD(o.T, o.TD), p)
 	case "type":
 		w(`log("%d:type:".concat(%s.storage.type(at: %s)?.identifier ?? "nil"))`, i, a, p)
 	case "paths":
@@ -363,7 +481,18 @@ func (h MapHistory) History() prog.History {
 
 // ---- model ----------------------------------------------------------------
 
-type MapCell struct{ K, N int }
+type MapCell struct{ K, N, F int }
+
+// Dyn is the dynamic type of the stored value.
+func (c *MapCell) Dyn() DynType { return DynOf(c.K, c.F) }
+
+// payload is what C.showAny / the readers print for the value.
+func (c *MapCell) payload() string {
+	if c.F == FNil {
+		return "nil"
+	}
+	return Show(c.K, c.N)
+}
 
 // MapState is the committed (or in-flight) content of all cells; cells are immutable, so
 // copying the array is a snapshot.
@@ -371,7 +500,7 @@ type MapState [MapAccounts][MapPaths]*MapCell
 
 // ExpLog is one expected log line. Kind "exact": Text; "paths": Text is the prefix
 // and Set the expected set of comma-terminated items in any order; "each": like
-// paths but only Count distinct members of Set are expected.
+// paths but only Count distinct members of Set are expected; "oneof": Text followed by one of Set.
 type ExpLog struct {
 	Kind  string
 	Text  string
@@ -383,6 +512,9 @@ func (x ExpLog) String() string {
 	if x.Kind == "exact" {
 		return x.Text
 	}
+	if x.Kind == "oneof" {
+		return x.Text + "{" + strings.Join(x.Set, " | ") + "}"
+	}
 	return fmt.Sprintf("%s{%d of %v}", x.Text, x.Count, x.Set)
 }
 
@@ -390,6 +522,14 @@ func (x ExpLog) String() string {
 func (x ExpLog) Match(actual string) bool {
 	if x.Kind == "exact" {
 		return actual == x.Text
+	}
+	if x.Kind == "oneof" { // Text is the prefix, Set the admissible remainders
+		for _, alt := range x.Set {
+			if actual == x.Text+alt {
+				return true
+			}
+		}
+		return false
 	}
 	if !strings.HasPrefix(actual, x.Text) {
 		return false
@@ -466,7 +606,7 @@ func (m *MapModel) pathTypeSet(a int) []string {
 	var out []string
 	for p := 0; p < MapPaths; p++ {
 		if c := m.State[a][p]; c != nil {
-			out = append(out, path(p)+"="+kindIdent[c.K])
+			out = append(out, path(p)+"="+c.Dyn().Ident())
 		}
 	}
 	return out
@@ -480,12 +620,25 @@ func (m *MapModel) apply(i int, o MapOp, x *MapExpect) (logs []ExpLog, fail stri
 	}
 	x.Accounts |= 1 << o.A
 	c := m.State[o.A][o.P]
+	oneof := func(prefix string, alts ...string) {
+		logs = append(logs, ExpLog{Kind: "oneof", Text: fmt.Sprintf("%d:%s", i, prefix), Set: alts})
+	}
+	// value read by load/copy: the innermost payload as printed by C.showAny
+	valueLog := func(op string) {
+		switch {
+		case o.T == TArrAny && c.F != FNil:
+			// the array may or may not have been converted to the static type [AnyStruct]
+			oneof(op+":", Show(c.K, c.N), fmt.Sprintf("arr:%d", arrLen(c.N)))
+		default:
+			exact("%s:%s", op, c.payload())
+		}
+	}
 	switch o.Op {
 	case "save":
 		if c != nil {
 			return nil, "overwrite"
 		}
-		m.State[o.A][o.P] = &MapCell{o.K, o.N}
+		m.State[o.A][o.P] = &MapCell{o.K, o.N, o.F}
 		x.Mutations++
 		exact("save")
 	case "load":
@@ -493,7 +646,7 @@ func (m *MapModel) apply(i int, o MapOp, x *MapExpect) (logs []ExpLog, fail stri
 			exact("load:nil")
 			break
 		}
-		if !SubKind(c.K, o.T) {
+		if !SubDyn(c.Dyn(), o.T, o.TD) {
 			x.Mismatch = true
 			// the value is removed before the type check fails: storage was mutated in memory
 			x.Mutations++
@@ -501,44 +654,53 @@ func (m *MapModel) apply(i int, o MapOp, x *MapExpect) (logs []ExpLog, fail stri
 		}
 		m.State[o.A][o.P] = nil
 		x.Mutations++
-		if o.T == TArrAny {
-			exact("load:len:%d", arrLen(c.N))
-		} else {
-			exact("load:%s", Show(c.K, c.N))
+		switch {
+		case TArgIsResource(o.T) && o.TD == 0 && !o.Generic:
+			if c.F == FPlain {
+				exact("load:%s", Show(c.K, c.N))
+			} else {
+				// whether C.showR's reference casts look through the optional (and whether a stored nil is
+				// flattened) is not part of the statement; the generator asks for Generic loads here
+				oneof("load:", "?", "nil", c.payload())
+			}
+		case TArgIsResource(o.T):
+			if c.F == FNil {
+				oneof("load:", "nil", "some")
+			} else {
+				exact("load:some")
+			}
+		default:
+			valueLog("load")
 		}
 	case "copy":
 		if c == nil {
 			exact("copy:nil")
 			break
 		}
-		if !SubKind(c.K, o.T) {
+		if !SubDyn(c.Dyn(), o.T, o.TD) {
 			x.Mismatch = true
 			return nil, "mismatch"
 		}
-		if o.T == TArrAny {
-			exact("copy:len:%d", arrLen(c.N))
-		} else {
-			exact("copy:%s", Show(c.K, c.N))
-		}
+		valueLog("copy")
 	case "borrow":
 		if c == nil {
 			exact("borrow:nil")
 			break
 		}
-		if !SubKind(c.K, o.T) {
+		if !SubDyn(c.Dyn(), o.T, 0) {
 			x.Mismatch = true
 			return nil, "mismatch"
 		}
 		switch o.T {
 		case TAnyStruct, TAnyResource:
-			exact("borrow:type:%s", kindIdent[c.K])
+			exact("borrow:type:%s", c.Dyn().Ident())
 		case TArrAny:
 			exact("borrow:len:%d", arrLen(c.N))
 		default:
 			exact("borrow:%s", Show(c.K, c.N))
 		}
 	case "check":
-		ok := c != nil && SubKind(c.K, o.T)
+		ok := c != nil && SubDyn(c.Dyn(), o.T, o.TD)
 		if c != nil && !ok {
 			x.Mismatch = true
 		}
@@ -547,7 +709,7 @@ func (m *MapModel) apply(i int, o MapOp, x *MapExpect) (logs []ExpLog, fail stri
 		if c == nil {
 			exact("type:nil")
 		} else {
-			exact("type:%s", kindIdent[c.K])
+			exact("type:%s", c.Dyn().Ident())
 		}
 	case "paths":
 		set := m.pathSet(o.A)
@@ -565,7 +727,7 @@ func (m *MapModel) apply(i int, o MapOp, x *MapExpect) (logs []ExpLog, fail stri
 			exact("move:nil")
 			break
 		}
-		if !SubKind(c.K, o.T) {
+		if !SubDyn(c.Dyn(), o.T, 0) {
 			x.Mismatch = true
 			x.Mutations++
 			return nil, "mismatch"
@@ -581,6 +743,13 @@ func (m *MapModel) apply(i int, o MapOp, x *MapExpect) (logs []ExpLog, fail stri
 		panic("bad op " + o.Op)
 	}
 	return logs, ""
+}
+
+// Apply performs one operation on the in-flight state without logging (ok=false: the operation fails).
+func (m *MapModel) Apply(o MapOp) bool {
+	var x MapExpect
+	_, fail := m.apply(0, o, &x)
+	return fail == ""
 }
 
 // Step predicts one execution and advances the committed state.
@@ -646,15 +815,17 @@ access(all) fun main(): [String] {
       if let t = a.storage.type(at: p) {
         s = t.identifier.concat("=")
         if t.isSubtype(of: Type<AnyStruct>()) {
-          s = s.concat(C.show(a.storage.copy<AnyStruct>(from: p)!))
+          s = s.concat(C.showAny(a.storage.copy<AnyStruct>(from: p)))
         } else {
           s = s.concat(C.showRR(a.storage.borrow<&AnyResource>(from: p)!))
         }
       }
       s = s.concat("|")
 `)
-	for t := 0; t < NTArgs; t++ {
-		fmt.Fprintf(&sb, "      s = s.concat(a.storage.check<%s>(from: p) ? \"1\" : \"0\")\n", tArgCad[t])
+	for td := 0; td <= MaxTArgDepth; td++ {
+		for t := 0; t < NTArgs; t++ {
+			fmt.Fprintf(&sb, "      s = s.concat(a.storage.check<%s>(from: p) ? \"1\" : \"0\")\n", tArgCadD(t, td))
+		}
 	}
 	sb.WriteString(`      out.append(s)
     }
@@ -678,14 +849,24 @@ func (s MapState) VerifyExpect() []string {
 			c := s[a][p]
 			line := "-"
 			if c != nil {
-				line = kindIdent[c.K] + "=" + Show(c.K, c.N)
+				line = c.Dyn().Ident() + "="
+				switch {
+				case !c.Dyn().isResource():
+					line += c.payload()
+				case c.F == FPlain:
+					line += Show(c.K, c.N)
+				default:
+					line += "?" // C.showRR dispatches on the exact type; optional resources are identified by their type only
+				}
 			}
 			line += "|"
-			for t := 0; t < NTArgs; t++ {
-				if c != nil && SubKind(c.K, t) {
-					line += "1"
-				} else {
-					line += "0"
+			for td := 0; td <= MaxTArgDepth; td++ {
+				for t := 0; t < NTArgs; t++ {
+					if c != nil && SubDyn(c.Dyn(), t, td) {
+						line += "1"
+					} else {
+						line += "0"
+					}
 				}
 			}
 			out = append(out, line)
@@ -720,6 +901,9 @@ type MapGenConfig struct {
 	// Injections: 35% of the executions get a failure injector (C24); otherwise ~12% of the
 	// transactions abort with a panic at the end or midway (C22).
 	Injections bool
+	// AvoidNilBorrowAnyResource keeps borrow<&AnyResource> away from paths that hold a stored nil (finding FG3 of
+	// C22); set by the properties that only reuse these histories.
+	AvoidNilBorrowAnyResource bool
 }
 
 func validTArgs(op string) []int {
@@ -760,6 +944,10 @@ func GenMapHistory(s Src, cfg MapGenConfig) MapHistory {
 		var x MapExpect
 		for i := 0; i < nOps; i++ {
 			o := genMapOp(s, scratch)
+			if c := scratch.State[o.A][o.P]; o.Op == "borrow" && o.T == TAnyResource && c != nil && c.F == FNil &&
+				(cfg.AvoidNilBorrowAnyResource || !chance(s, "fg3cell", 20)) {
+				o.T = TAnyStruct
+			}
 			e.Ops = append(e.Ops, o)
 			if _, fail := scratch.apply(i, o, &x); fail != "" {
 				break // everything after a failing operation would be dead code
@@ -807,6 +995,9 @@ func genMapOp(s Src, m *MapModel) MapOp {
 		o.A, o.P = cell("cell", empty)
 		o.K = s.Intn("kind", NKinds)
 		o.N = s.Intn("payload", 60)
+		if chance(s, "optional", 30) {
+			o.F = 1 + s.Intn("form", NForms-1)
+		}
 	case "paths":
 		o.A = s.Intn("acct", MapAccounts)
 	case "each":
@@ -818,16 +1009,35 @@ func genMapOp(s Src, m *MapModel) MapOp {
 		o.A, o.P = cell("cell", full)
 		valid := validTArgs(o.Op)
 		o.T = valid[s.Intn("targ", len(valid))]
-		if c := m.State[o.A][o.P]; c != nil && !chance(s, "mismatch", 30) {
-			var sup []int
-			for _, t := range valid {
-				if SubKind(c.K, t) {
-					sup = append(sup, t)
+		maxTD := MaxTArgDepth
+		if o.Op == "borrow" || o.Op == "move" {
+			maxTD = 0 // references to optional types cannot be written; move keeps to plain type arguments
+		}
+		if maxTD > 0 && chance(s, "targopt", 35) {
+			o.TD = 1 + s.Intn("targdepth", maxTD)
+		}
+		c := m.State[o.A][o.P]
+		if c != nil && !chance(s, "mismatch", 30) {
+			// prefer an accepting type argument (at the drawn depth, else at any depth)
+			var sup [][2]int
+			for td := 0; td <= maxTD; td++ {
+				for _, t := range valid {
+					if SubDyn(c.Dyn(), t, td) && (td == o.TD || c.F != FPlain) {
+						sup = append(sup, [2]int{t, td})
+					}
 				}
 			}
 			if len(sup) > 0 {
-				o.T = sup[s.Intn("suptarg", len(sup))]
+				pick := sup[s.Intn("suptarg", len(sup))]
+				o.T, o.TD = pick[0], pick[1]
 			}
+		}
+		if o.Op == "load" && (o.TD > 0 || (c != nil && c.F != FPlain)) {
+			o.Generic = true
+		}
+		if o.Op == "move" && c != nil && c.F != FPlain && SubDyn(c.Dyn(), o.T, 0) {
+			// moving an optional value through `if let` would re-box it: make it a plain load instead
+			o.Op, o.Generic = "load", true
 		}
 		if o.Op == "move" {
 			o.A2, o.P2 = cell("dest", empty)
